@@ -40,14 +40,13 @@ type GettyRemotingClient struct {
 }
 
 func GetGettyRemotingClient() *GettyRemotingClient {
-	if gettyRemotingClient == nil {
-		onceGettyRemotingClient.Do(func() {
-			gettyRemotingClient = &GettyRemotingClient{
-				idGenerator:   &atomic.Uint32{},
-				gettyRemoting: newGettyRemoting(),
-			}
-		})
-	}
+	// (no unsynchronised nil check in front of the Once: that read races with the initialisation)
+	onceGettyRemotingClient.Do(func() {
+		gettyRemotingClient = &GettyRemotingClient{
+			idGenerator:   &atomic.Uint32{},
+			gettyRemoting: newGettyRemoting(),
+		}
+	})
 	return gettyRemotingClient
 }
 
